@@ -57,10 +57,29 @@ impl Op {
             ],
         );
         // Short form of (inverted && !forward) || (forward && !inverted)
+        #[cfg(not(geodesy_verif))]
         if self.descriptor.inverted != forward {
             return self.descriptor.fwd.0(self, ctx, operands);
         }
-        self.descriptor.inv.0(self, ctx, operands)
+        #[cfg(not(geodesy_verif))]
+        return self.descriptor.inv.0(self, ctx, operands);
+
+        #[cfg(geodesy_verif)]
+        {
+            let count = if self.descriptor.inverted != forward {
+                self.descriptor.fwd.0(self, ctx, operands)
+            } else {
+                self.descriptor.inv.0(self, ctx, operands)
+            };
+            crate::verif::emit(
+                "applied",
+                vec![
+                    ("id", format!("{:?}", self.id)),
+                    ("count", count.to_string()),
+                ],
+            );
+            count
+        }
     }
 
     pub fn new(definition: &str, ctx: &dyn Context) -> Result<Op, Error> {
